@@ -519,11 +519,22 @@ class ArmWalker:
                                     index_kind(idx, self), c))
             elif nm == 'TotalOrderSort':
                 self.events.append(('sort', self.cls_of(a[0]), [g[0] for g in self.guards], c))
+                extra = [x for x in a[1:] if x is not None and x.kind != 'CXXDefaultArgExpr']
+                if extra:
+                    # TotalOrderSort(keys, reverse): sort + reverse when the flag is literally true
+                    # (T2 certifies that the callee honours the flag on every path); anything else
+                    # is a conditional reverse
+                    v = const_eval(extra[0])
+                    if v:
+                        self.events.append(('reverse', self.cls_of(a[0]), c, [g[0] for g in self.guards]))
+                    elif v is None:
+                        self.events.append(('reverse', self.cls_of(a[0]), c,
+                                            [g[0] for g in self.guards] + ['<flag %s>' % extra[0].text(3)]))
             elif nm == 'PyList_Reverse':
                 x = a[0]
                 if x.kind == 'CXXMemberCallExpr' and x.callee_name() == 'ptr':
                     x = x.call_base()
-                self.events.append(('reverse', self.cls_of(x), c))
+                self.events.append(('reverse', self.cls_of(x), c, [g[0] for g in self.guards]))
             elif nm in ('DictKeys', 'SortedDictKeys'):
                 self.events.append(('keys', 'DictKeys', self.cls_of(a[0]), c))
                 if nm == 'SortedDictKeys':
@@ -820,9 +831,27 @@ class Descriptor:
                 out.append('ORIG=%s' % e[2])
             elif e[0] == 'sort':
                 out.append('SORT')
-            elif e[0] == 'reverse':
+            elif e[0] == 'reverse' and 'REVERSE' not in out:
                 out.append('REVERSE')
         return out
+
+    @property
+    def reverse_on_every_path(self):
+        """the key list is reversed whichever way the arm's own conditions go: one unguarded
+        reverse, or reverses under complementary guards (`G` and `!(G)`)"""
+        rs = [e for e in self.events if e[0] == 'reverse']
+        if not rs:
+            return None
+        gs = [tuple(e[3]) if len(e) > 3 else () for e in rs]
+        if any(not g for g in gs):
+            return True
+
+        def negs(t):
+            if t.startswith('not '):
+                return {t[4:]}
+            return {'not ' + t, 'not (%s)' % t}
+        singles = {g[0] for g in gs if len(g) == 1}
+        return any(negs(g) & singles for g in singles)
 
     @property
     def meta(self):
